@@ -1,4 +1,5 @@
 import CoapVerif.Lemmas.EditTrace
+import CoapVerif.Lemmas.WsWriter
 /-
 C01 — wire codec round trip for every API-built message on every transport.
 
@@ -23,6 +24,14 @@ STATUS.
    (coap_add_option_internal now removes the implicit Hop-Limit again when the Proxy-Uri / Proxy-Scheme option it
    was added for is refused); the old witness is kept as a comment next to `refused_proxy_leaves_nothing`.
    `refused_when` says WHEN add_token / append / add_data are refused.
+ * WebSocket WRITE side (RFC 8323 §4 over RFC 6455 §5.2; Model/WsWriter.lean = coap_ws_write / coap_ws_close after
+   the partial-write fix, Spec/WsFrame.lean = the RFC 6455 frame grammar, Lemmas/WsWriter.lean), proved in full:
+   `ws_frame_wellformed`, `ws_close_frame_wellformed` (one frame, FIN, opcode, MASK iff client, minimal length form,
+   cyclic XOR), `ws_write_read_roundtrip` / `ws_write_sequence_roundtrip` (the written bytes cut into ANY chunks and
+   read by C05's S_ws / M_ws reader of the opposite role give back the CoAP messages, in order),
+   `ws_partial_writes_one_frame` / `ws_partial_writes_sequence` (ANY pattern of partial lower-layer writes: the
+   caller's loop puts exactly the frames on the wire - never a frame started inside another) and the end-to-end
+   `ws_send_receive`.
 -/
 namespace Coap.C01
 open Coap Coap.M
@@ -242,6 +251,174 @@ theorem refused_proxy_leaves_nothing :
     addOption (conc 12 ⟨0, 1, 1, [], [], []⟩) 35 (List.replicate 20 0x61) =
       R.ok (0, conc 12 ⟨0, 1, 1, [], [], []⟩) := by decide
 
+/-! ### WebSocket write side: coap_ws_write / coap_ws_close (RFC 8323 §4, RFC 6455 §5.2) -/
+
+section WsWrite
+open Coap.M.WsW Coap.WsW Coap.Spec.Stream.Ws
+
+/-- **(a)** what coap_ws_write builds for ANY payload shorter than 2^63 bytes, either role, any masking key is exactly
+ONE RFC 6455 frame (whatever follows it, `rest`, is left over): FIN = 1, RSV = 0, opcode 2 (binary), MASK set iff the
+writer is the client (then the key is in the header), the length in its MINIMAL form (`Spec.WsFrame.decode` refuses the
+16-bit form for ≤ 125 and the 64-bit form for ≤ 65535 or ≥ 2^63), application data = the payload; and on the wire the
+payload is `header ++ body` with `body[j] = payload[j] XOR key[j mod 4]` for the client, the payload itself for the server -/
+theorem ws_frame_wellformed (role : Role) (key data rest : Bytes) (hk : key.length = 4) (hn : data.length < 2 ^ 63) :
+    Spec.WsFrame.decode (frame role key data ++ rest) =
+      some (⟨true, 0, 2, role = .client, (match role with | .client => key | .server => []), data⟩, rest) ∧
+    frame role key data = header role key data.length ++ bodyBytes role key 0 data ∧
+    (∀ j, (bodyBytes .client key 0 data)[j]? = data[j]?.map (· ^^^ key.getD (j % 4) 0)) ∧
+    bodyBytes .server key 0 data = data := by
+  refine ⟨?_, rfl, fun j => ?_, rfl⟩
+  · rw [decode_frame role key data rest hk hn]; cases role <;> rfl
+  · have := maskData_get key data 0 j
+    rw [Nat.zero_add] at this
+    exact this
+
+/-- the Close frame coap_ws_close writes: one frame, FIN = 1, RSV = 0, opcode 8, MASK iff client, two bytes of
+application data = the status code, most significant byte first (RFC 6455 §5.5.1) -/
+theorem ws_close_frame_wellformed (role : Role) (key rest : Bytes) (reason : Nat) (hk : key.length = 4) :
+    Spec.WsFrame.decode (closeFrame role key reason ++ rest) =
+      some (⟨true, 0, 8, role = .client, (match role with | .client => key | .server => []),
+             [u8 (reason / 2 ^ 8), u8 reason]⟩, rest) := by
+  rw [decode_closeFrame role key rest reason hk]; cases role <;> rfl
+
+/-- coap_ws_write itself, from a writer with no frame part way and a lower layer that takes what it is offered: it
+returns `datalen`, what it hands down is exactly `frame` (so (a) is about the bytes WRITTEN), and it is idle again -/
+theorem ws_write_whole (st : St) (key data : Bytes) (lw : Nat → Int) (hk : key.length = 4) (hidle : Idle st)
+    (hall : lw (frame st.role key data).length = ((frame st.role key data).length : Int)) :
+    (wsWrite st key data lw).1 = (data.length : Int) ∧ (wsWrite st key data lw).2.2 = frame st.role key data ∧
+    Idle (wsWrite st key data lw).2.1 ∧ (wsWrite st key data lw).2.1.role = st.role := by
+  have hF := fLen_eq st.role key data
+  have hH := hLen_ge st.role key data
+  have hfl : (frame st.role key data).length = fLen st.role key data := rfl
+  rw [hfl] at hall
+  have hlw : lw (fLen st.role key data - 0) ≤ ((fLen st.role key data - 0 : Nat) : Int) := by
+    rw [Nat.sub_zero, hall]; exact Int.le_refl _
+  obtain ⟨hw, hrep, hrole, _, hret⟩ := wsWrite_step st key data 0 lw hk (Rep_zero st key data hidle) (by omega) hlw
+  simp only [Nat.zero_sub, List.drop_zero, Nat.sub_zero, Nat.zero_add, hall, Int.toNat_natCast] at hw hrep hret hrole
+  refine ⟨?_, ?_, ?_, hrole⟩
+  · rw [hret (Int.natCast_nonneg _)]; congr 1; omega
+  · rw [hw, ← hfl]; exact List.take_length
+  · rw [← hrole] at hrep; exact Idle_of_Rep_full _ key data hrep
+
+/-- coap_ws_close on a session that is up and has not sent a Close: the lower layer is handed exactly the Close frame
+with the status code (1000 when none was set), and from then on coap_ws_write writes nothing and returns 0 -/
+theorem ws_close_then_silent (st : St) (key : Bytes) (hup : st.up = true) (hsc : st.sentClose = false) :
+    (wsClose st key lwAll).2 = closeFrame st.role key (if st.closeReason = 0 then 1000 else st.closeReason) ∧
+    ∀ key' data lw, wsWrite (wsClose st key lwAll).1 key' data lw = (0, (wsClose st key lwAll).1, []) := by
+  constructor
+  · simp [wsClose, hup, hsc, lwAll]
+  · intro key' data lw
+    apply wsWrite_down
+    right
+    simp only [wsClose, hup, hsc, Bool.not_false, Bool.and_self, if_true]
+    cases st.role <;> rfl
+
+/-- several frames back to back parse as that sequence of frames under the RFC 6455 grammar -/
+theorem ws_frames_wellformed (role : Role) (msgs : List (Bytes × Bytes)) (hk : ∀ m ∈ msgs, m.1.length = 4)
+    (hn : ∀ m ∈ msgs, m.2.length < 2 ^ 63) :
+    Spec.WsFrame.decodeAll (msgs.length + 1) (writeAll role msgs) = some (msgs.map (frameOf role)) :=
+  decodeAll_writeAll role msgs _ (Nat.lt_succ_self _) hk hn
+
+/-- the receiver specification of C05 (S_ws, role opposite to the writer's) on a written frame followed by `rest`:
+the payload as one data frame - one CoAP message if it decodes, nothing for an empty payload - then `rest` -/
+theorem ws_spec_reads_written (role : Role) (key data rest : Bytes) (hk : key.length = 4) (hn : data.length ≤ maxFrame) :
+    frames (readerMode role) ((frame role key data ++ rest).length + 1) (frame role key data ++ rest) =
+      ((if data.length = 0 then (frames (readerMode role) (rest.length + 1) rest).1
+        else Spec.Stream.deliver (Spec.decode .ws data) (frames (readerMode role) (rest.length + 1) rest).1),
+       (frames (readerMode role) (rest.length + 1) rest).2) :=
+  frOf_written role key data rest hk hn
+
+theorem delivered_encode : ∀ (ms : List (Bytes × Msg)), (∀ m ∈ ms, Spec.WF .ws m.2) →
+    delivered (ms.map fun m => (m.1, Spec.encode .ws m.2)) = ms.map fun m => Spec.onWire .ws m.2 := by
+  intro ms
+  induction ms with
+  | nil => intro _; rfl
+  | cons m rest ih =>
+    intro h
+    have hne : ¬ (Spec.encode .ws m.2).length = 0 := by simp [Spec.encode]
+    simp only [List.map_cons, delivered, hne, if_false, Coap.decode_encode .ws m.2 (h m (List.mem_cons_self ..)),
+      Spec.Stream.deliver, ih (fun x hx => h x (List.mem_cons_of_mem _ hx))]
+
+/-- **(b)** write → read round trip: the bytes coap_ws_write produces for the encoding of a well-formed CoAP message
+(`Spec.encode .ws`, = M's serialisation by `M_encode_eq_S`), cut into ANY chunks and fed to M's reader of the opposite
+role (coap_ws_read / coap_read_session, handshake done; = S_ws by C05's `feed_spec`), come out as exactly that message
+(`decode_encode`), and the session stays open -/
+theorem ws_write_read_roundtrip (role : Role) (accept key : Bytes) (m : Msg) (chunks : List Bytes) (hk : key.length = 4)
+    (hwf : Spec.WF .ws m) (hlen : (Spec.encode .ws m).length ≤ maxFrame)
+    (hc : chunks.flatten = frame role key (Spec.encode .ws m)) :
+    wsObs (Coap.M.Ws.feed (readerMode role) accept { up := true } chunks) = ([Spec.onWire .ws m], .open true) := by
+  have h := feed_writeAll role accept [(key, Spec.encode .ws m)] chunks (by simpa using hk) (by simpa using hlen)
+    (by simpa [writeAll] using hc)
+  rw [h]
+  have := delivered_encode [(key, m)] (by simpa using hwf)
+  simp only [List.map_cons, List.map_nil] at this
+  rw [this]
+
+/-- … for arbitrary payloads (not only CoAP messages): every written payload is read back as one data frame -/
+theorem ws_payload_roundtrip (role : Role) (accept : Bytes) (msgs : List (Bytes × Bytes)) (chunks : List Bytes)
+    (hk : ∀ m ∈ msgs, m.1.length = 4) (hn : ∀ m ∈ msgs, m.2.length ≤ maxFrame)
+    (hc : chunks.flatten = writeAll role msgs) :
+    wsObs (Coap.M.Ws.feed (readerMode role) accept { up := true } chunks) = (delivered msgs, .open true) :=
+  feed_writeAll role accept msgs chunks hk hn hc
+
+/-- **(c)** several messages written back to back (each with its own masking key), the bytes cut into ANY chunks:
+the reader delivers the same messages in the same order -/
+theorem ws_write_sequence_roundtrip (role : Role) (accept : Bytes) (ms : List (Bytes × Msg)) (chunks : List Bytes)
+    (hk : ∀ m ∈ ms, m.1.length = 4) (hwf : ∀ m ∈ ms, Spec.WF .ws m.2)
+    (hlen : ∀ m ∈ ms, (Spec.encode .ws m.2).length ≤ maxFrame)
+    (hc : chunks.flatten = writeAll role (ms.map fun m => (m.1, Spec.encode .ws m.2))) :
+    wsObs (Coap.M.Ws.feed (readerMode role) accept { up := true } chunks) =
+      (ms.map fun m => Spec.onWire .ws m.2, .open true) := by
+  rw [feed_writeAll role accept _ chunks
+    (by intro x hx; obtain ⟨m, hm, rfl⟩ := List.mem_map.1 hx; exact hk m hm)
+    (by intro x hx; obtain ⟨m, hm, rfl⟩ := List.mem_map.1 hx; exact hlen m hm) hc, delivered_encode ms hwf]
+
+/-- **partial writes, one message**: from a writer with no frame part way, the caller's loop (offer what was not taken
+until everything is) under ANY sequence of lower-layer behaviours that never take more than offered (each may take
+nothing, a part of the header, a part of the payload, or fail): the wire always holds a prefix of THE frame of the
+message; when the loop reports that everything was taken it holds exactly that one frame and the writer is idle again.
+(Before the libcoap fix the rest of a partly taken frame was dropped and the next frame started inside it.) -/
+theorem ws_partial_writes_one_frame (st : St) (key data : Bytes) (lws : List (Nat → Int)) (hk : key.length = 4)
+    (hd : 0 < data.length) (hidle : Idle st) (hs : ∀ lw ∈ lws, Sane lw) :
+    (∃ m, (sendAll key lws st data).2.2 = (frame st.role key data).take m) ∧
+    ((sendAll key lws st data).1 = true →
+      (sendAll key lws st data).2.2 = frame st.role key data ∧ Idle (sendAll key lws st data).2.1) :=
+  ⟨(sendAll_idle st key data lws hk hd hidle hs).1, (sendAll_idle st key data lws hk hd hidle hs).2.2⟩
+
+/-- **partial writes, several messages** -/
+theorem ws_partial_writes_sequence (ms : List (Bytes × Bytes × List (Nat → Int))) (st : St) (hidle : Idle st)
+    (h : ∀ m ∈ ms, m.1.length = 4 ∧ 0 < m.2.1.length ∧ ∀ lw ∈ m.2.2, Sane lw) :
+    (∃ k, (sendMsgs ms st).2.2 = (writeAll st.role (ms.map fun m => (m.1, m.2.1))).take k) ∧
+    ((sendMsgs ms st).1 = true →
+      (sendMsgs ms st).2.2 = writeAll st.role (ms.map fun m => (m.1, m.2.1)) ∧ Idle (sendMsgs ms st).2.1) :=
+  sendMsgs_spec ms st hidle h
+
+/-- **end to end**: CoAP messages sent one after the other through coap_ws_write under any partial-write pattern, all
+reported sent; the bytes that reached the wire cut into any chunks and read by the peer: the peer gets exactly those
+messages, in order -/
+theorem ws_send_receive (accept : Bytes) (ms : List (Bytes × Msg × List (Nat → Int))) (st : St) (chunks : List Bytes)
+    (hidle : Idle st) (hk : ∀ m ∈ ms, m.1.length = 4) (hs : ∀ m ∈ ms, ∀ lw ∈ m.2.2, Sane lw)
+    (hwf : ∀ m ∈ ms, Spec.WF .ws m.2.1) (hlen : ∀ m ∈ ms, (Spec.encode .ws m.2.1).length ≤ maxFrame)
+    (hsent : (sendMsgs (ms.map fun m => (m.1, Spec.encode .ws m.2.1, m.2.2)) st).1 = true)
+    (hc : chunks.flatten = (sendMsgs (ms.map fun m => (m.1, Spec.encode .ws m.2.1, m.2.2)) st).2.2) :
+    wsObs (Coap.M.Ws.feed (readerMode st.role) accept { up := true } chunks) =
+      (ms.map fun m => Spec.onWire .ws m.2.1, .open true) := by
+  have hall : ∀ m ∈ ms.map (fun m => (m.1, Spec.encode .ws m.2.1, m.2.2)),
+      m.1.length = 4 ∧ 0 < m.2.1.length ∧ ∀ lw ∈ m.2.2, Sane lw := by
+    intro x hx
+    obtain ⟨m, hm, rfl⟩ := List.mem_map.1 hx
+    exact ⟨hk m hm, by simp [Spec.encode], hs m hm⟩
+  have hw := ((sendMsgs_spec _ st hidle hall).2 hsent).1
+  rw [hw, List.map_map] at hc
+  have h := ws_write_sequence_roundtrip st.role accept (ms.map fun m => (m.1, m.2.1)) chunks
+    (by intro x hx; obtain ⟨m, hm, rfl⟩ := List.mem_map.1 hx; exact hk m hm)
+    (by intro x hx; obtain ⟨m, hm, rfl⟩ := List.mem_map.1 hx; exact hwf m hm)
+    (by intro x hx; obtain ⟨m, hm, rfl⟩ := List.mem_map.1 hx; exact hlen m hm)
+    (by rw [hc, List.map_map]; rfl)
+  rw [h, List.map_map]; rfl
+
+end WsWrite
+
 /-! ### non-vacuity -/
 
 /-- out-of-order build: an illegal repetition of Size1 refused, 300, then 3 and 290 below it (coap_add_option →
@@ -271,5 +448,53 @@ example : Spec.WF .ws ⟨0, 69, 0, [], [(3, [0x68]), (60, [1])], [0xff]⟩ := by
 example : ¬ Spec.WF .udp ⟨0, 0, 1, [0xaa], [], []⟩ := by decide
 example : [(60, [1]), (11, [0x61]), (3, [0x68]), (11, [0x62])].foldl (fun os x => Spec.insertStable x.1 x.2 os) [] =
     [(3, [0x68]), (11, [0x61]), (11, [0x62]), (60, [1])] := by decide
+
+section WsWriteExamples
+open Coap.M.WsW Coap.WsW Coap.Spec.Stream.Ws
+
+/-- the frames for the CoAP message `00 01` (GET, no token) + payload marker-less byte, client (key 01020304) / server -/
+example : frame .client [1, 2, 3, 4] [0, 1, 0xaa] = [0x82, 0x83, 1, 2, 3, 4, 1, 3, 0xa9] := by decide
+example : frame .server [1, 2, 3, 4] [0, 1, 0xaa] = [0x82, 3, 0, 1, 0xaa] := by decide
+/-- the three length forms on both sides of 125/126 and 65535/65536 -/
+example : header .server [] 125 = [0x82, 125] ∧ header .server [] 126 = [0x82, 126, 0, 126] ∧
+    header .client [1, 2, 3, 4] 65535 = [0x82, 0xfe, 0xff, 0xff, 1, 2, 3, 4] ∧
+    header .server [] 65536 = [0x82, 127, 0, 0, 0, 0, 0, 1, 0, 0] := by decide
+example : closeFrame .client [1, 2, 3, 4] 1000 = [0x88, 0x82, 1, 2, 3, 4, 2, 0xea] ∧
+    closeFrame .server [] 1002 = [0x88, 2, 3, 0xea] := by decide
+/-- the grammar refuses a length that is not in its minimal form, and an incomplete frame -/
+example : Spec.WsFrame.decode [0x82, 126, 0, 3, 0, 1, 0xaa] = none ∧ Spec.WsFrame.decode [0x82, 3, 0, 1] = none := by decide
+example : Spec.WsFrame.decode [0x82, 0x83, 1, 2, 3, 4, 1, 3, 0xa9, 0x55] =
+    some (⟨true, 0, 2, true, [1, 2, 3, 4], [0, 1, 0xaa]⟩, [0x55]) := by decide
+/-- hypotheses are satisfiable: a key, an idle writer, lower layers that take everything / at most 7 bytes / fail -/
+example : ([1, 2, 3, 4] : Bytes).length = 4 ∧ ([0, 1, 0xaa] : Bytes).length < 2 ^ 63 := by decide
+example : Idle {} := ⟨rfl, rfl, Or.inl rfl⟩
+example : lwAll (frame .client [1, 2, 3, 4] [0, 1, 0xaa]).length = ((frame .client [1, 2, 3, 4] [0, 1, 0xaa]).length : Int) := rfl
+example : wsWrite {} [1, 2, 3, 4] [0, 1, 0xaa] lwAll =
+    (3, { maskKey := [1, 2, 3, 4], txHdr := [0x82, 0x83, 1, 2, 3, 4], txHdrOfs := 6, txDataOfs := 3 },
+     [0x82, 0x83, 1, 2, 3, 4, 1, 3, 0xa9]) := by decide
+/-- a session that is up and has not sent a Close (the defaults of `St`); Close, then a write: nothing, 0 -/
+example : ({} : St).up = true ∧ ({} : St).sentClose = false := ⟨rfl, rfl⟩
+example : (wsClose { role := .server, closeReason := 1002 } [] lwAll).2 = [0x88, 2, 3, 0xea] ∧
+    (wsWrite (wsClose { role := .server, closeReason := 1002 } [] lwAll).1 [] [0, 1] lwAll).1 = 0 := by decide
+example : Sane lwAll ∧ Sane (fun n => ((min n 7 : Nat) : Int)) ∧ Sane (fun _ => -1) :=
+  ⟨sane_lwAll, fun _ => Int.ofNat_le.2 (Nat.min_le_left _ _), fun m => by show (-1 : Int) ≤ (m : Int); omega⟩
+example : Spec.WF .ws ⟨0, 1, 0, [], [], []⟩ ∧ (Spec.encode .ws ⟨0, 1, 0, [], [], []⟩).length ≤ maxFrame := by decide
+/-- the replay of the fixed defect (`wsw c W01020304:0001aa:7;W05060708:0002bb:a`): the lower layer takes 7 of the 9
+bytes of the first frame; the caller's second call sends the 2 bytes left (masked from key offset 1) and only then the
+next frame starts.  [Before the fix coap_ws_write returned 3 on the first call, the two bytes `03 a9` were never sent
+and the wire read 82 83 01 02 03 04 01 | 82 83 05 06 07 08 05 04 bc: the peer takes `82 83` for payload.] -/
+example : (sendMsgs [([1, 2, 3, 4], [0, 1, 0xaa], [fun n => ((min n 7 : Nat) : Int), lwAll]),
+                     ([5, 6, 7, 8], [0, 2, 0xbb], [lwAll])] {}).1 = true ∧
+    (sendMsgs [([1, 2, 3, 4], [0, 1, 0xaa], [fun n => ((min n 7 : Nat) : Int), lwAll]),
+               ([5, 6, 7, 8], [0, 2, 0xbb], [lwAll])] {}).2.2 =
+      [0x82, 0x83, 1, 2, 3, 4, 1, 3, 0xa9, 0x82, 0x83, 5, 6, 7, 8, 5, 4, 0xbc] := by decide
+/-- half of the header, nothing, the rest of the header, then the payload byte by byte -/
+example : (sendAll [1, 2, 3, 4] [fun _ => 3, fun _ => 0, fun _ => 3, fun _ => 1, fun _ => 1, fun _ => 1] {} [0, 1, 0xaa]) =
+    (true, { maskKey := [1, 2, 3, 4], txHdr := [0x82, 0x83, 1, 2, 3, 4], txHdrOfs := 6, txDataOfs := 3 },
+     [0x82, 0x83, 1, 2, 3, 4, 1, 3, 0xa9]) := by decide
+/-- a client's frame for `00 01` cut in three, read by M's server-side reader -/
+example : wsObs (Coap.M.Ws.feed .server [] { up := true } [[0x82, 0x82, 1], [2, 3, 4, 1], [3]]) =
+    ([⟨0, 1, 0, [], [], []⟩], .open true) := by decide
+end WsWriteExamples
 
 end Coap.C01
